@@ -293,7 +293,7 @@ void h_assert_fail(const char *e, const char *f, unsigned line, const char *fn) 
 uint64_t g_process_state[3][70];
 uint64_t g_tsd_keys_created = 0; // thread-specific-data keys the library has created (a pool of 1024 per process)
 void h_process_state(int what, int arg, int is_write) {
-    if (what == 3) { g_tsd_keys_created++; return; }
+    if (what == 3 || what == 4) { g_tsd_keys_created++; return; } // (fork handlers: the same kind of never-returned process-wide registration)
     if (what < 0 || what > 2) return;
     simrt::yield_point(simrt::Y_SYSCALL, 30 + (uintptr_t) what);
     simrt::on_access((uintptr_t) &g_process_state[what][(unsigned) arg % 70], 8, is_write != 0, (uintptr_t) __builtin_return_address(0));
@@ -1205,7 +1205,7 @@ struct C19 {
         }
         if (got.end_keys != ref.first_keys) {
             // conservation of another small process-wide pool: thread-specific-data keys (1024 per process in glibc)
-            res.fail("thread-key-leak", "pthread_key_create", "the library created " + std::to_string(got.end_keys) + " thread-specific-data key(s) over the run with " + std::to_string(p.nthreads) +
+            res.fail("thread-key-leak", "pthread_key_create", "the library created " + std::to_string(got.end_keys) + " thread-specific-data key(s) / fork-handler registration(s) over the run with " + std::to_string(p.nthreads) +
                      " threads; one sodium_init() creates " + std::to_string(ref.first_keys) + " (sequential reference, first call): keys are taken per thread or per call from a pool of 1024 and never returned", (int) RT.steps);
             return res;
         }
